@@ -5,6 +5,7 @@ package main
 // canonical notation of E3, for comparison with /verif/spec/recipes.json.
 
 import (
+	"regexp"
 	"fmt"
 	"sort"
 	"strconv"
@@ -194,11 +195,17 @@ func (p *Program) Extract(s Site) (val string, pos string, fn *ssa.Function, err
 
 // recipeEquivalent: accepted alternatives of single recipes whose property only needs a weaker
 // fact than textual equality.
+var aeadDstRe = regexp.MustCompile(`(\(cipher\.AEAD\)\.(?:Seal|Open)\([^,]*, )Make0\([0-9]*\)`)
+
 func recipeEquivalent(key, got, want string) bool {
 	// a buffer of the specified size filled by copy (Copy#k(X,N)) may be written as an exact copy of
 	// X (append([]byte(nil), X...), bytes.Clone): the length guard in front of it is a recipe of
 	// its own. Only this direction: a copy into a buffer of another size stays a difference.
 	if strings.Contains(want, "Copy#") && copiesAsConcat(want) == got {
+		return true
+	}
+	// the destination an AEAD appends to: an empty slice with spare capacity is as good as nil
+	if strings.Contains(got, "Make0(") && aeadDstRe.ReplaceAllString(got, "${1}nil") == aeadDstRe.ReplaceAllString(want, "${1}nil") {
 		return true
 	}
 	// guard sets: every specified guard must be there; an additional refusal is accepted only if
